@@ -19,14 +19,21 @@ import c12_gen as g
 from common import cstr, clist, cfloat, copt, cpair, cz, cnat
 
 THEOREMS = ['C12_expand_shorthand', 'C12_interpolates_evenly_spaced',
+            'C12_log_interpolates_constant_ratio',
+            'C12_importance_cards_single', 'C12_importance_cards_jump_refused',
+            'C12_jumped_cell_kept',
             'C12_importance_cards_max', 'C12_importance_cards_uneven_refused',
             'C12_keywords_importance', 'C12_particle_dictionary',
             'C12_option_tokens_words', 'C12_importance_of_cell',
             'C12_importance_missing_refused', 'C12_skipped_iff_zero',
+            'C12_note_order',
             'C12_converted_iff_nonzero', 'C12_data_card_max_zero',
-            'C12_chain_zero_iff', 'C12_cell_card_zero_iff',
+            'C12_chain_zero_iff', 'C12_option_tokens_app',
+            'C12_last_value_app', 'C12_like_written_zero_iff',
+            'C12_cell_card_zero_iff',
             'C12_plain_card_zero_iff', 'C12_conv_keys_not_skipped',
-            'C12_written_volumes']
+            'C12_written_volumes', 'C12_imp_card_text',
+            'C12_parse_deck_text_split']
 TRUSTED = [
     'hand-written model coq/C12/Model.v + Text.v (modelled, tied by '
     'execution only)',
@@ -655,7 +662,7 @@ def parse_ties(res, rng, n_valid, n_bad):
                 'impl': meta[n_valid][3][:3]
                 if meta[n_valid][3][0] == 'err' else 'ok'})
     bad, errs = run_cases('c12_parse', HEADER, 'pcase',
-                                      'check_parse', cases, chunk=100)
+                                      'check_parse', cases, chunk=40)
     res.obligation(f'tie:parse ({len(cases)} decks: Model.parse_cells = '
                    'ParseMCNPCell.parse, per cell importance/universe/'
                    'material/density/fill/filltr/lattice/trcl + skip list)',
@@ -715,17 +722,19 @@ def conversion_sweep(res, rng, n_decks, n_guard):
                 cases.append(cpair(g.c_pcase(deck, (), result),
                                    clist(cz(k) for k in volu),
                                    copt(note, lambda l: clist(cz(k)
-                                                              for k in l))))
+                                                              for k in l)),
+                                   clist(cstr(line) for line in
+                                         g.note_bytes_lines(conv.stdout))))
                 meta.append((deck, text))
     if meta:
         res.sample({'deck': meta[0][1],
                     'abstract': [(c['id'], c['values'])
                                  for c in meta[0][0]['cells']]})
     bad, errs = run_cases('c12_conv', HEADER,
-                                      'pcase * list Z * option (list Z)',
+                                      'pcase * list Z * option (list Z) * list string',
                                       'check_conv', cases, chunk=100)
     res.obligation(f'tie:conv ({len(cases)} conversions: Model.written_ids = '
-                   'VOLU ids of the written file, Model.note = NOTE list)', not bad and not errs,
+                   'VOLU ids of the written file, Model.note_lines = bytes of the NOTE)', not bad and not errs,
                    f'{len(bad)} disagreements {errs[:1]}')
     for idx in bad[:10]:
         deck, text = meta[idx]
@@ -755,11 +764,33 @@ def run(res, tier, seed, proofs_ok):
                 'conversions of level-0 decks incl. keywords containing "u"; '
                 'non-trivial = >= 2 tokens / cells, for (c) a deck with both '
                 'zero and non-zero cells')
-    corpus(res)
-    all_zero_deck(res)
-    expand_ties(res, rng, 300 if quick else 4000, 200 if quick else 3000)
-    parse_ties(res, rng, 300 if quick else 3000, 200 if quick else 1500)
+    import c12_cov
+    cov = c12_cov.LineCov(c12_cov.anchored_functions())
+    with cov:
+        corpus(res)
+        all_zero_deck(res)
+        expand_ties(res, rng, 300 if quick else 4000, 200 if quick else 3000)
+        parse_ties(res, rng, 300 if quick else 3000, 200 if quick else 1500)
+    coverage_obligation(res, cov)
     conversion_sweep(res, rng, 250 if quick else 2500, 40 if quick else 250)
+
+
+def coverage_obligation(res, cov):
+    import c12_cov
+    total, missing = cov.missing(c12_cov.EXEMPT)
+    res.obligation('coverage: corpus + tie:expand + tie:parse execute every '
+                   f'reachable line of the anchored parser functions ({total} '
+                   f'lines of {len(cov.codes)} code objects)', not missing,
+                   f'never executed: {missing[:6]}')
+    res.extra['anchored_lines'] = total
+    if missing:
+        res.violation('harness-error',
+                      'generated inputs no longer reach these lines of the '
+                      'anchored code (strengthen the generators): '
+                      f'{missing[:8]}',
+                      {'theorem_or_correspondence': 'coverage',
+                       'input': {'lines': [list(m) for m in missing[:20]]}},
+                      found_input=False)
 
 
 def replay(path):
